@@ -56,4 +56,19 @@ theorem line_line_eq_model (p0x p0y p1x p1y q0x q0y q1x q1y : K) :
     | (simp only [llModel, winFilter, *, if_true, if_false, and_true, true_and, and_false, false_and, or_false, false_or, or_true, true_or,
         not_true_eq_false, not_false_eq_true, and_self, or_self]; done))
 
+theorem isclose_self (a r : K) : isclose a a r 0 := by
+  unfold isclose; rw [sub_self, abs_zero]; exact le_max_of_le_right (le_refl _)
+
+/-- **the ray crossing test of the winding number is the line/line code**: the regenerated
+    `Line(p0,p1).intersections(Line((lx,py),(px,py)))` (62 paths) is the regenerated general line/line tree at a
+    horizontal second operand, hence the readable model -/
+theorem ray_line_eq_model (p0x p0y p1x p1y lx px py : K) :
+    ray_line p0x p0y p1x p1y lx px py = llModel p0x p0y p1x p1y lx py px py := by
+  have hs : isclose py py ((1 : K) / 1000000000) 0 := isclose_self _ _
+  unfold ray_line
+  repeat' (first
+    | (refine eq_ite (fun _ => ?_) (fun _ => ?_))
+    | (simp only [llModel, winFilter, hs, *, if_true, if_false, and_true, true_and, and_false, false_and, or_false, false_or, or_true, true_or,
+        not_true_eq_false, not_false_eq_true, and_self, or_self]; done))
+
 end C05M
